@@ -334,9 +334,11 @@ static void runSession(const Session& S, vh::Rng* rng, const std::vector<Op>* op
         prevTime = c.time;
     }
     if (nEos > 1) worstEos = 1;
-    vh::P("returned_time_le_pending", kp + "le_pending", worstPending, 0);
+    // CPODES computes its own output times: allow rounding-level slack there (the modelled family is compared exactly)
+    const double cpSlack = isCPodes ? 1e-12 * std::max(1.0, std::fabs(prevTime)) : 0.0;
+    vh::P("returned_time_le_pending", kp + "le_pending", worstPending, cpSlack);
     vh::P("time_monotone", kp + "monotone", worstMono, 0);
-    vh::P("advanced_never_passes_sched_or_final", kp + "advanced_le_limits", worstAdv, 0);
+    vh::P("advanced_never_passes_sched_or_final", kp + "advanced_le_limits", worstAdv, cpSlack);
     vh::P("stop_is_exact", kp + "exact_stop", worstExact, 0);
     vh::P("eos_once_at_final", kp + "eos", worstEos, 0);
     vh::P("refused_after_eos", kp + "refused", worstRefuse, 0);
